@@ -190,6 +190,7 @@ func (w *world) dump4() string {
 
 func (w *world) line4(kind, op string, err error, panicked bool, msg string) {
 	res := errClass(err)
+	w.debugf("%s: %v", kind, err)
 	if panicked {
 		res = "panic:" + msg
 	}
